@@ -1,6 +1,7 @@
 import FeatModel.Model.Proto
 import FeatModel.Model.Solver.History
 import FeatModel.Model.Solver.IluSpec
+import FeatModel.Model.Solver.IluLevels
 import FeatModel.Model.Solver.Blocked
 /-!
 line-protocol driver for the C08 models (stationary preconditioners)
@@ -187,12 +188,34 @@ def handle : P String := do
       let f := factorizeNumeric s (copyDataCsr s A (garbage s))
       let g := factorizeNumericS s (copyDataCsrS s A)
       if f.dataD.any (· = 0) then pure "ABORT"
-      else if !(f.dataL == g.dataL && f.dataU == g.dataU && f.dataD == g.dataD && s.wf && s.sorted && s.covers A) then
+      else if !(f.dataL == g.dataL && f.dataU == g.dataU && f.dataD == g.dataD && s.wf && s.sorted && s.covers A && patternMatches p.toNat s0 s) then
         pure "MODEL-SPLIT"   -- the two formulations of the numeric factorisation differ / structure not well-shaped
       else
         let y := solveIl (s.matL f) b.toArray (sentinel b.length)
         let z := solveDu (s.matU f) f.dataD y
         pure s!"F {showNatsL s.rpL.toList} {showNatsL s.ciL.toList} {showNatsL s.rpU.toList} {showNatsL s.ciU.toList} {showRatsL f.dataL.toList} {showRatsL f.dataU.toList} {showRatsL f.dataD.toList} Y {showRatsL y.toList} Z {showRatsL z.toList}"
+  | "ilulev" =>
+    -- per-entry levels observed through the nested patterns of factorize_symbolic(0..P)
+    let pMax ← nat
+    let n ← nat
+    let rp ← natList
+    let ci ← natList
+    match setStructCsr n rp.toArray ci.toArray with
+    | none => pure "EXC"
+    | some s0 =>
+      let pats := (List.range (pMax + 1)).map fun (p : Nat) => factorizeSymbolic s0 (Int.ofNat p)
+      let rowOut := fun (i : Nat) =>
+        let ents : List (Nat × Nat) := (List.range n).filterMap fun c =>
+          if c == i then none
+          else
+            match (List.range (pMax + 1)).find? (fun p =>
+              let t := pats.getD p s0
+              (List.range' (t.rpL.getD i 0) (t.rpL.getD (i + 1) 0 - t.rpL.getD i 0)).any (fun k => t.ciL.getD k 0 == c)
+                || (List.range' (t.rpU.getD i 0) (t.rpU.getD (i + 1) 0 - t.rpU.getD i 0)).any (fun k => t.ciU.getD k 0 == c)) with
+            | some p => some (c, p)
+            | none => none
+        s!"{showNatsL (ents.map (·.1))} {showNatsL (ents.map (·.2))}"
+      pure (" ".intercalate ("V" :: (List.range n).map rowOut))
   | "scale" =>
     let ω ← rat
     let fidx ← natList
